@@ -482,6 +482,9 @@ def compare(op, a, b):
     if op in ("==", "!=") and ((isinstance(a.kind, KRef) and isinstance(b.kind, KStr) and b.py == "") or
                                (isinstance(b.kind, KRef) and isinstance(a.kind, KStr) and a.py == "")):
         return FALSE if op == "==" else TRUE
+    if op in ("==", "!=") and ((isinstance(a.kind, KStr) and (is_num(b) or isinstance(b.kind, KList))) or
+                               (isinstance(b.kind, KStr) and (is_num(a) or isinstance(a.kind, KList)))):
+        return FALSE if op == "==" else TRUE        # a str never equals a number or a list
     if is_num(a) and is_num(b):
         if is_intlike(a) and is_intlike(b):
             if isinstance(a.kind, KBool) and isinstance(b.kind, KBool) and op in ("==", "!="):
